@@ -37,3 +37,35 @@
 ;@sig csat : row int asg -> bool
 (define-fun csat ((R (Array Int Int)) (o Int) (n Int) (A (Array Int Bool))) Bool
   (exists ((k Int)) (and (<= 0 k) (< k n) (tvi A (select R (at o k))))))
+
+; ---------------------------------------------------------------- pbSet semantics (cutting planes)
+; weights row W (index = variable), assignment A: sum of |W[v]| over v < n whose literal is true
+;@sig vterm : int bool -> int
+(define-fun vterm ((w Int) (a Bool)) Int (ite (= w 0) 0 (ite (= a (> w 0)) (absi w) 0)))
+;@sig vsum : row asg int -> int
+(declare-fun vsum ((Array Int Int) Int (Array Int Bool) Int) Int)
+(assert (forall ((R (Array Int Int)) (o Int) (A (Array Int Bool)) (n Int))
+  (! (= (vsum R o A n) (ite (<= n 0) 0 (+ (vsum R o A (- n 1)) (vterm (select R (at o (- n 1))) (select A (- n 1))))))
+     :pattern ((vsum R o A n)))))
+;@lemma vsum_store_outside
+(assert (forall ((R (Array Int Int)) (j Int) (v Int) (o Int) (A (Array Int Bool)) (n Int))
+  (! (=> (or (< j o) (>= j (+ o n))) (= (vsum (store R j v) o A n) (vsum R o A n)))
+     :pattern ((vsum (store R j v) o A n)))))
+;@lemma vsum_nonneg
+(assert (forall ((R (Array Int Int)) (o Int) (A (Array Int Bool)) (n Int))
+  (! (>= (vsum R o A n) 0) :pattern ((vsum R o A n)))))
+; weight removed by roundToOne's weakening step: non-falsified literals whose weight is not a multiple of wi
+;@sig nonfals : int int -> bool
+(define-fun nonfals ((m Int) (w Int)) Bool (or (= m 0) (= (> m 0) (> w 0))))
+;@sig rsum : row row int int -> int
+(declare-fun rsum ((Array Int Int) Int (Array Int Int) Int Int Int) Int)
+(assert (forall ((W (Array Int Int)) (o Int) (M (Array Int Int)) (mo Int) (wi Int) (n Int))
+  (! (= (rsum W o M mo wi n)
+        (ite (<= n 0) 0 (+ (rsum W o M mo wi (- n 1))
+             (ite (and (not (= (select W (at o (- n 1))) 0)) (not (= (tmod (select W (at o (- n 1))) wi) 0)) (nonfals (select M (at mo (- n 1))) (select W (at o (- n 1)))))
+                  (absi (select W (at o (- n 1)))) 0))))
+     :pattern ((rsum W o M mo wi n)))))
+;@lemma rsum_store_outside
+(assert (forall ((W (Array Int Int)) (j Int) (v Int) (o Int) (M (Array Int Int)) (mo Int) (wi Int) (n Int))
+  (! (=> (or (< j o) (>= j (+ o n))) (= (rsum (store W j v) o M mo wi n) (rsum W o M mo wi n)))
+     :pattern ((rsum (store W j v) o M mo wi n)))))
